@@ -1,4 +1,5 @@
 \* events (v10) under the three assumptions
+\* measured (8 TLC workers shared over 3 runs): 475726 distinct / 1047394 generated states, depth 25, 90.7s
 CONSTANTS NSubs = 1 NConn = 1 InitLen = 2 MaxLen = 4 MaxTag = 4 MaxReverts = 1 MaxL1 = 0 MaxPc = 2 MaxTx = 2 MaxGw = 0 MaxRecv = 0 MaxTicks = 0 MaxBack = 3 MaxGot = 6
   Ver = 10 Kinds <- KEvents StartAtL1 = 0 NoLag = TRUE QuietSub = TRUE ReorgPrio = TRUE TeeStage = FALSE Window = FALSE FixL1None = FALSE FixL1Order = FALSE BlockIds <- BidsSmall
 INIT Init
